@@ -59,12 +59,17 @@ def _drivers():
         "handle-chain": (handle_chain, ("ok", None), [{"r": 1}, {"r": 3}]),
         "handles-late-args": (handle_late, ("ok", None), [{"r": 1}, {"r": 2}]),
         "shared-object": (lambda: T.ident([T.mklist(1), T.mklist(T.ident(1))]), ("ok", [[1, 2], [1, 2]]), [{}]),
+        "dup-both-wait": (lambda: [T.rleaf(9), T.rleaf(1), T.rleaf(T.ident(1))], ("ok", [109, 101, 101]), [{"r": 1}, {"r": 2}]),
+        "dup-parent-late": (lambda: [T.mid(1), T.mid(T.ident(1))], ("ok", [101, 101]), [{}]),
+        "dup-rparent-late": (lambda: [T.rmid(1), T.rmid(T.ident(1))], ("ok", [101, 101]), [{"r": 1}, {"r": 2}]),
         "cse-none": (lambda: [T.nocache(1), T.nocache(T.ident(1))], ("ok", [1, 1]), [{}]),
     }
     return D
 
 
 TWO_RUN = ["dup-late", "nested", "child-fails-after-parent-done", "caught-failures"]
+# drivers that are also explored with Scheduler.run(cache=False) (cache scope downgraded to CSE: no backend single-reduction hits)
+NO_CACHE = ["dup-late", "dup-nolimit", "dup-both-wait", "dup-parent-late", "dup-rparent-late", "nested-dup", "failing-twin"]
 
 
 def cases(tier: str):
@@ -73,6 +78,9 @@ def cases(tier: str):
     for name, (_, _, limit_cfgs) in D.items():
         for lim in limit_cfgs:
             out.append({"driver": name, "limits": lim, "runs": 1})
+    for name in NO_CACHE:
+        for lim in D[name][2][: (1 if tier == "quick" else 3)]:
+            out.append({"driver": name, "limits": lim, "runs": 1, "cache": False})
     for name in TWO_RUN:
         lim = D[name][2][0]
         out.append({"driver": name, "limits": lim, "runs": 2})
@@ -239,7 +247,7 @@ def run_scenario(case, prefix):
     try:
         outs = []
         for _ in range(case["runs"]):
-            out = env.run(build())
+            out = env.run(build(), **({"cache": False} if case.get("cache") is False else {}))
             outs.append(out)
             probe.end_of_run(env, out, expected)
         probe.end_of_scenario(env)
@@ -347,7 +355,7 @@ def run_property(ctx, prop: str, extra_cross_check=None, case_filter=None):
     results = roots + subs
     by_case: dict = {}
     for r in results:
-        k = (r["case"]["driver"], repr(r["case"]["limits"]), r["case"]["runs"])
+        k = (r["case"]["driver"], repr(r["case"]["limits"]), r["case"]["runs"], r["case"].get("cache", True))
         a = by_case.setdefault(k, {"case": r["case"], "states": set(), "transitions": 0, "executions": 0, "full": True,
                                    "bound": None, "max_points": 0, "outcomes": Counter(), "cgs": {}, "cg_detail": {}})
         a["states"] |= r["states"]
@@ -372,7 +380,7 @@ def run_property(ctx, prop: str, extra_cross_check=None, case_filter=None):
         ctx.violation(s, c, f"[>= {n} executions] {d}")
     if extra_cross_check:
         extra_cross_check(ctx, by_case)
-    per_case = [{"driver": a["case"]["driver"], "limits": a["case"]["limits"], "runs": a["case"]["runs"],
+    per_case = [{"driver": a["case"]["driver"], "limits": a["case"]["limits"], "runs": a["case"]["runs"], "cache": a["case"].get("cache", True),
                  "executions": a["executions"], "full_tree": a["full"], "bound": a["bound"], "max_points": a["max_points"],
                  "distinct_states": len(a["states"]), "distinct_outcomes": len(a["outcomes"]),
                  "distinct_callgraphs": len(a["cgs"])} for a in by_case.values()]
